@@ -15,6 +15,17 @@ import (
 	"github.com/BondMachineHQ/BondMachine/pkg/simbox"
 )
 
+// sortedParamNames lists the keys of an extra module's parameters in a fixed order (generated text
+// must not follow map iteration order).
+func sortedParamNames(params map[string]string) []string {
+	names := make([]string, 0, len(params))
+	for name := range params {
+		names = append(names, name)
+	}
+	sort.Strings(names)
+	return names
+}
+
 func nth_assoc(assoc string, seq int) string {
 	re := regexp.MustCompile("\\[(?P<to>[0-9]+):(?P<from>[0-9]+)\\] +(?P<name>[a-zA-Z0-9]+)")
 	if re.MatchString(assoc) {
@@ -1800,7 +1811,8 @@ func (bmach *Bondmachine) Write_verilog_board(conf *Config, module_name string, 
 	}
 
 	if uartModule {
-		for name, value := range uartParams {
+		for _, name := range sortedParamNames(uartParams) {
+			value := uartParams[name]
 			fmt.Println(name[len(name)-3:])
 			if name[len(name)-3:] == "_rx" {
 				result += "\tinput " + value + ",\n"
@@ -2118,7 +2130,8 @@ func (bmach *Bondmachine) Write_verilog_board(conf *Config, module_name string, 
 	}
 
 	if uartModule {
-		for name, value := range uartParams {
+		for _, name := range sortedParamNames(uartParams) {
+			value := uartParams[name]
 			fmt.Println(name[len(name)-3:])
 			if name[len(name)-3:] == "_rx" {
 				result += "\tassign " + name + "=" + value + ";\n"
